@@ -35,6 +35,7 @@ type act struct {
 	N    int    `json:"n,omitempty"`    // write: calls per goroutine
 	Back int    `json:"back,omitempty"` // write: 0 = latest session of the peer, 1 = the one before, ...
 	Plan string `json:"plan,omitempty"` // plan: refuse accept hold stall
+	GapNs int64 `json:"gap_ns,omitempty"` // write: virtual sleep between the calls of one goroutine
 }
 
 type script struct {
@@ -104,6 +105,19 @@ func tagBody(peer, sess int, g int64, idx, n int) []byte {
 		b[i] = byte(i*7) ^ b[i%16]
 	}
 	return b
+}
+
+// boundWriter is an UpdateMessageWriter captured at the time the script's
+// write action was interpreted.
+type boundWriter struct {
+	w interface{ WriteUpdate([]byte) error }
+}
+
+func (b boundWriter) call(w *world.World, peer string, sessID int, g int64, body []byte) (int, error) {
+	w.Rec.Add(world.Ev{K: "wu+", Peer: peer, N: sessID, G: g, Data: body})
+	err := b.w.WriteUpdate(body)
+	w.Rec.Add(world.Ev{K: "wu-", Peer: peer, N: sessID, G: g, Data: body, Err: err != nil})
+	return sessID, err
 }
 
 func planOf(s string) memnet.DialPlan {
@@ -197,7 +211,7 @@ func runScript(t *testing.T, s script) *trace {
 		for bi, burst := range s.Bursts {
 			tr.Stages = append(tr.Stages, stageMap())
 			touched := map[int]bool{}
-			for _, a := range burst {
+			for ai, a := range burst {
 				if a.P < 0 || a.P >= len(s.Peers) {
 					tr.NoOps++
 					continue
@@ -266,15 +280,25 @@ func runScript(t *testing.T, s script) *trace {
 						tr.NoOps++
 						continue
 					}
+					// bind the writer now: a later DeletePeer+AddPeer replaces the registration
+					sessID := w.SessionID(p.Remote, sess)
+					wr := boundWriter{w.Writer(p.Remote, sess)}
+					if wr.w == nil || sessID < 0 {
+						tr.NoOps++
+						continue
+					}
 					for g := 0; g < max(a.G, 1); g++ {
 						wg.Add(1)
 						go func(g int64) {
 							defer wg.Done()
 							for i := 0; i < max(a.N, 1); i++ {
-								body := tagBody(a.P, sess, g+int64(1000*bi), i, a.Len)
-								wc := writeCall{Peer: p.Remote, Sess: sess, G: g + int64(1000*bi), Idx: i, Body: body}
+								if i > 0 && a.GapNs > 0 {
+									time.Sleep(time.Duration(a.GapNs))
+								}
+								body := tagBody(a.P, sess, g+int64(10000*bi+100*ai), i, a.Len)
+								wc := writeCall{Peer: p.Remote, Sess: sessID, G: g + int64(10000*bi+100*ai), Idx: i, Body: body}
 								wc.CallSeq = w.Net.NextSeq()
-								_, err := w.WriteUpdate(p.Remote, sess, wc.G, body)
+								_, err := wr.call(w, p.Remote, sessID, wc.G, body)
 								wc.RetSeq = w.Net.NextSeq()
 								wc.Err = err != nil
 								mu.Lock()
@@ -473,6 +497,7 @@ func genAct(rt *rapid.T, npeers int, prof scriptProfile) act {
 		a.N = rapid.IntRange(1, 6).Draw(rt, "n")
 		a.Back = pick(rt, "back", 0, 0, 0, 1, 2)
 		a.Len = pick(rt, "wlen", 16, 19, 255, 4077, rapid.IntRange(16, 300).Draw(rt, "wlenr"))
+		a.GapNs = pick[int64](rt, "gap", 0, 0, 1000, 1000000, 999999999, 1000000000, 3000000000)
 	default:
 		a.Op = op
 	}
